@@ -402,3 +402,82 @@ def relevant(obname, found):
         if key in clause:
             return any(w in t for w in words for t in texts)
     return False
+
+
+def run_select(w):
+    """w: dict(kind in sh|wf|swap|quantis).  The REAL select_shoot with the four moves replaced by recorders and ENGINES by fake
+    engine instances: the configured move runs once with the pinned engine instance(s), which are prepared and cleaned."""
+    from infretis.core import tis
+
+    class Eng:
+        def __init__(self, name):
+            self.name, self.log = name, []
+
+        def set_mdrun(self, pens):
+            self.log.append("set_mdrun")
+
+        def clean_up(self):
+            self.log.append("clean_up")
+    engs = {"engine": [Eng("engine#0"), Eng("engine#1")], "engine0": [Eng("engine0#0")]}
+    kind = w["kind"]
+    if kind in ("sh", "wf"):
+        sc = ("R",) if kind == "sh" else ("L",)
+        picked = {1: {"ens": {"mc_move": kind, "ens_name": "001", "start_cond": sc, "tis_set": {}}, "traj": mk_old_path([-0.1, 0.3, -0.2]), "eng_idx": {"engine": 1}, "rgen-eng": "STREAM"}}
+    else:
+        picked = {-1: {"ens": {"mc_move": "sh", "ens_name": "000", "start_cond": ("R",), "tis_set": {"quantis": kind == "quantis"}}, "traj": mk_old_path([0.3, -0.4, 0.2]), "eng_idx": {"engine0": 0}},
+                  0: {"ens": {"mc_move": "sh", "ens_name": "001", "start_cond": ("L",), "tis_set": {"quantis": kind == "quantis"}}, "traj": mk_old_path([-0.2, 0.4, -0.1]), "eng_idx": {"engine": 1}, "rgen-eng": "STREAM"}}
+    for p in picked.values():
+        p["traj"].path_number = 1
+    calls = []
+    trial = mk_old_path([-0.3, 0.6, 1.2])
+
+    def rec(name, n):
+        def f(*a, **k):
+            calls.append((name, a, k))
+            return (False, trial if n == 1 else [trial, trial], "NCR")
+        return f
+    saved = {n: getattr(tis, n) for n in ("shoot", "wire_fencing", "retis_swap_zero", "quantis_swap_zero")}
+    saved_eng = getattr(tis, "ENGINES", None)
+    tis.shoot, tis.wire_fencing = rec("shoot", 1), rec("wire_fencing", 1)
+    tis.retis_swap_zero, tis.quantis_swap_zero = rec("retis_swap_zero", 2), rec("quantis_swap_zero", 2)
+    tis.ENGINES = engs
+    bad = []
+    try:
+        acc, paths, status = tis.select_shoot(picked)
+    except Exception as e:
+        return [f"select_shoot raised {e!r}"], {}
+    finally:
+        for n, v in saved.items():
+            setattr(tis, n, v)
+        tis.ENGINES = saved_eng
+    pinned = {k: [engs[e][i] for e, i in p["eng_idx"].items()] for k, p in picked.items()}
+    if len(calls) != 1:
+        return [f"{len(calls)} moves performed"], {}
+    name, a, k = calls[0]
+    if len(picked) == 1:
+        p = picked[1]
+        if name != {"sh": "shoot", "wf": "wire_fencing"}[kind]:
+            bad.append(f"move {name} called for mc_move {kind}")
+        if a[0] is not p["ens"] or a[1] is not p["traj"] or a[2] is not pinned[1][0] or k.get("start_cond") != p["ens"]["start_cond"]:
+            bad.append("move not called with the ensemble's settings / old path / pinned engine instance / start condition")
+        if not (isinstance(paths, list) and len(paths) == 1 and paths[0] is trial):
+            bad.append("does not return the move's path")
+    else:
+        if name != ("quantis_swap_zero" if kind == "quantis" else "retis_swap_zero"):
+            bad.append(f"move {name} called for kind {kind}")
+        e = a[1] if len(a) > 1 else k.get("engines", {})
+        if a[0] is not picked or set(e) != {-1, 0} or any(len(e[x]) != len(pinned[x]) or any(u is not v for u, v in zip(e[x], pinned[x])) for x in (-1, 0)):
+            bad.append("zero swap not called with the picked ensembles and their pinned engine instances")
+    if (acc, status) != (False, "NCR"):
+        bad.append("the move's verdict is not what is returned")
+    used = [x for v in pinned.values() for x in v]
+    for lst in engs.values():
+        for x in lst:
+            if x in used and ("set_mdrun" not in x.log or "clean_up" not in x.log):
+                bad.append(f"{x.name} not prepared / cleaned")
+            if x not in used and (x.log or hasattr(x, "rgen")):
+                bad.append(f"{x.name} touched although it is not pinned for this job")
+    for kk, p in picked.items():
+        if "rgen-eng" in p and any(getattr(x, "rgen", None) != "STREAM" for x in pinned[kk]):
+            bad.append("the job's engine stream was not installed")
+    return bad, {"move": name}
